@@ -2,6 +2,7 @@
   C14 — Reward weight lifecycle: bounded, exact decay schedule, not retroactive.
 -/
 import AllianceProofs
+import AllianceProofs.ArithTie
 import AllianceProps.C09
 namespace Alliance
 namespace C14
